@@ -519,3 +519,60 @@ Print Assumptions C13_tie_cw_write_sim.
 Theorem C13_tie_cw_finalize_src : ltac:(let t := type of SrcTie3CompW.cw_finalize_src in exact t).
 Proof. exact SrcTie3CompW.cw_finalize_src. Qed.
 Print Assumptions C13_tie_cw_finalize_src.
+
+(* ====================================================================================
+   The BLOCK PARSER, translated (work package blockT): gen/Src3b.v holds ArchiveFileBlock::from and
+   ArchiveFileBlockType::try_from statement by statement (tools/src2v3_block.py); it IS Blocks.parse_block for
+   every stream, state, FILENAME_MAX_SIZE and discriminants.  The level-1 translations of the reader, the
+   repair loop and linear_extract call THIS function: "ArchiveFileBlock::from = Blocks.parse_block" is no
+   longer a trusted link.
+   ==================================================================================== *)
+From MLA Require SrcTie3Block.
+From MLAGen Require Src3b.
+(* every stream: a source that delivers one byte per read included (SrcTie3Block.block_from_name_limit runs it
+   through a Throttled source) *)
+Theorem C13_tie_block_from_src :
+  forall (S : Stream) (FNMAX T_START T_CONTENT T_EOA T_EOF : N) (s : st S),
+    Src3b.ArchiveFileBlock_from S FNMAX T_START T_CONTENT T_EOA T_EOF 636 s =
+    parse_block FNMAX T_START T_CONTENT T_EOA T_EOF S s.
+Proof. exact SrcTie3Block.block_from_src. Qed.
+Print Assumptions C13_tie_block_from_src.
+Check SrcTie3Block.block_from_name_limit.
+
+(* ====================================================================================
+   The archive HEADER, translated (work package blockT/B, gen/Src3h.v): the C13 header theorems with the
+   TRANSLATED ArchiveHeader::from as subject.
+   ==================================================================================== *)
+From MLA Require Import Base Stream Format Archive ArchiveProofs HeaderStream.
+From MLA Require SrcTie3Header SrcTie3HeaderRest.
+From MLAGen Require Src3h.
+
+Theorem C13_tie_header_from :
+  forall (S : Stream) (s : st S),
+    Src3h.ArchiveHeader_from S s = read_header_s S Src3h.BINCODE_MAX_DESERIALIZE s.
+Proof. exact SrcTie3Header.header_from_src. Qed.
+Print Assumptions C13_tie_header_from.
+
+Theorem C13_header_any_source_src :
+  forall (S : Stream) (b : bytes) (R : st S -> N -> Prop), Refines S b R ->
+  forall (s0 : st S), R s0 0 ->
+    let LIMIT := Src3h.BINCODE_MAX_DESERIALIZE in
+    exists s',
+      match read_header LIMIT b with
+      | Ok (h, rest) =>
+          Src3h.ArchiveHeader_from S s0 = (s', Ok h) /\ R s' (len b - len rest) /\
+          rest = dropN (7 + config_size h) b /\ 7 + config_size h <= len b /\ config_size h <= LIMIT
+      | Err e => Src3h.ArchiveHeader_from S s0 = (s', Err e) /\ exists p', R s' p' /\ p' <= 7 + LIMIT
+      | Crash _ => False
+      end.
+Proof. exact SrcTie3Header.C13_header_any_source_src. Qed.
+Print Assumptions C13_header_any_source_src.
+
+Theorem C13_header_then_rest_src :
+  forall (h : header) (rest : bytes) (S : Stream) (R : st S -> N -> Prop) (s0 : st S),
+  wf_enc_opt h -> config_size h <= Src3h.BINCODE_MAX_DESERIALIZE ->
+  Refines S (ser_header h ++ rest) R -> R s0 0 ->
+  exists s', Src3h.ArchiveHeader_from S s0 = (s', Ok h) /\ R s' (len (ser_header h)).
+Proof. exact SrcTie3HeaderRest.C13_header_then_rest_src. Qed.
+Print Assumptions C13_header_then_rest_src.
+Check SrcTie3HeaderRest.C13_header_then_rest_src_ex.
